@@ -10,7 +10,7 @@ Variable oc : nat -> outcome.
 Notation step := (Pool.step cf oc).
 
 Ltac open_step s e H :=
-  destruct s as [c ic cl p q sp0 idl rc rn ex ab fin dr ac rr we he res]; destruct e; simpl in H; destr_step H;
+  destruct s as [c ic cl p q sp0 idl rc rn ex ab fin dr ac rr we he hf res]; destruct e; simpl in H; destr_step H;
   inversion H; subst; clear H; simpl in *.
 
 (* every accepted job is in exactly one place, exactly once; nothing else is anywhere *)
@@ -29,7 +29,7 @@ Definition inv_wk (s : st) : Prop :=
 Definition inv_err (s : st) : Prop :=
   (forall j, In j (finished s) -> (to_wait cf oc j = true -> In j (werrs s)) /\ (to_handler cf oc j = true -> In j (herrs s))) /\
   (forall j, In j (werrs s) \/ In j (herrs s) -> fails (oc j) = true /\ In j (finished s)).
-Definition inv_res (s : st) : Prop := pc s = PFinished -> result s = Some (werrs s, herrs s).
+Definition inv_res (s : st) : Prop := pc s = PFinished -> result s = Some (werrs s).
 
 Lemma inv_tok_step s e s' : inv_wk s -> inv_tok s -> step s e = Some s' -> inv_tok s'.
 Proof.
@@ -238,6 +238,78 @@ Proof.
     destruct (memb j (accepted s)); lia.
 Qed.
 
+(* progress: while the pool keeps running, a pending job is never stuck for a reason inside the pool -
+   some step of the pipeline (splitter check / take / hand-off, a job beginning, a job ending) is enabled,
+   unless every worker is occupied by a job that blocks until the cancellation. (That such an enabled step
+   is eventually taken is scheduler fairness, which is trusted.) *)
+Section Progress.
+Variable cf : conf.
+Variable oc : nat -> outcome.
+Notation step := (Pool.step cf oc).
+
+Definition inv_spl (s : st) : Prop :=
+  (sp s = SplOff -> pc s = PNotStarted) /\
+  (sp s = SplExited -> cancelled s = true \/ icancel s = true \/ closed s = true) /\
+  (closed s = true -> cancelled s = true \/ pc s = PReturned \/ pc s = PFinished).
+
+Lemma inv_spl_step s e s' : inv_spl s -> step s e = Some s' -> inv_spl s'.
+Proof.
+  unfold inv_spl. intros (S1 & S2 & S3) H.
+  destruct s as [c ic cl p q sp0 idl rc rn ex ab fin dr ac rr we he hf res]; destruct e; simpl in H; destr_step H;
+    inversion H; subst; clear H; simpl in *; try (repeat split; assumption).
+  all: split; [intros X1|split; [intros X2|intros X3]]; try discriminate; auto.
+  all: try (specialize (S2 X2)); try (specialize (S3 X3)); try tauto.
+  all: try (apply orb_true_iff in Heqb; tauto).
+  all: try (destruct S3 as [?|[?|?]]; try discriminate; tauto).
+  all: try (destruct (c || ic) eqn:Y; [apply orb_true_iff in Y; tauto|]; simpl in *; try rewrite orb_false_r in *; tauto).
+  all: try (specialize (S1 X1); discriminate).
+  apply orb_true_iff in Heqb. destruct Heqb as [?|Y]; [now left|]. destruct p; try discriminate Y. right; now left.
+Qed.
+
+Lemma reach_inv_spl s : reach cf oc s -> inv_spl s.
+Proof.
+  intros (tr & Htr). eapply invariant_run; [apply inv_spl_step| |exact Htr].
+  repeat split; simpl; intros; try discriminate; auto.
+Qed.
+
+Definition pipeline_step (e : ev) : Prop :=
+  match e with ESplCheck | ESplPop | EHandoff | EJobBegin _ | EJobEnd _ => True | _ => False end.
+
+Lemma pool_pending_progress_lemma s :
+  reach cf oc s -> pc s = PRunning -> cancelled s = false -> icancel s = false -> pending s <> [] ->
+  (exists e s', pipeline_step e /\ step s e = Some s') \/
+  (idle s = 0 /\ recv s = [] /\ forall j, In j (running s) -> blocking (oc j) = true).
+Proof.
+  intros Hr Hp Hc Hi Hpend. destruct (reach_inv_spl s Hr) as (S1 & S2 & S3).
+  destruct s as [c ic cl p q sp0 idl rc rn ex ab fin dr ac rr we he hf res]; simpl in *. subst.
+  unfold pending in Hpend; simpl in Hpend.
+  assert (Hrecv : rc <> [] -> exists e s', pipeline_step e /\ step
+            (mk false false cl PRunning q sp0 idl rc rn ex ab fin dr ac rr we he hf res) e = Some s').
+  { intros X. destruct rc as [|j rc']; [congruence|]. exists (EJobBegin j). simpl. rewrite Nat.eqb_refl. simpl.
+    eexists. split; [exact I|reflexivity]. }
+  destruct sp0 as [| | |j|].
+  - specialize (S1 eq_refl). discriminate.
+  - left. exists ESplCheck. simpl. eexists. split; [exact I|reflexivity].
+  - destruct q as [|j q'].
+    + simpl in Hpend. left. apply Hrecv. exact Hpend.
+    + left. exists ESplPop. simpl. eexists. split; [exact I|reflexivity].
+  - destruct idl as [|i'].
+    + destruct rc as [|j' rc'].
+      * destruct (existsb (fun x => negb (blocking (oc x))) rn) eqn:X.
+        -- apply existsb_exists in X. destruct X as (x & Hx & Nb). left. exists (EJobEnd x). simpl.
+           apply memb_In in Hx. rewrite Hx, Nb. simpl.
+           destruct (continues cf oc x); eexists; (split; [exact I|reflexivity]).
+        -- right. repeat split. intros x Hx.
+           destruct (blocking (oc x)) eqn:B; [reflexivity|].
+           assert (existsb (fun x => negb (blocking (oc x))) rn = true)
+             by (apply existsb_exists; exists x; rewrite B; auto). congruence.
+      * left. apply Hrecv. discriminate.
+    + left. exists EHandoff. simpl. eexists. split; [exact I|reflexivity].
+  - exfalso. destruct (S2 eq_refl) as [?|[?|Y]]; try discriminate.
+    destruct (S3 Y) as [?|[?|?]]; discriminate.
+Qed.
+End Progress.
+
 (* non-vacuity: 2 workers, continue on error and panic; five jobs, one added before the start, one
    failing, one panicking, one blocking, one added after the cancellation started and abandoned *)
 Definition ex_cf := mkconf 2 false true true false.
@@ -250,10 +322,18 @@ Definition ex_trace : list ev :=
 Example pool_nonvacuous :
   exists s, run (Pool.step ex_cf ex_oc) init ex_trace = Some s /\ pc s = PFinished
             /\ accepted s = [4; 3; 2; 1; 0] /\ finished s = [3; 2; 1; 0] /\ dropped s = [4]
-            /\ result s = Some ([2; 1], []).
+            /\ result s = Some [2; 1].
 Proof. eexists. split; [vm_compute; reflexivity|]. repeat split. Qed.
 Example pool_accepts_example : Pool.accepts ex_cf ex_oc (filter observable ex_trace) = true.
 Proof. vm_compute. reflexivity. Qed.
 Example pool_rejects_job_twice :
   Pool.accepts ex_cf ex_oc [EStart; EAdd 0; EJobBegin 0; EJobEnd 0; EJobBegin 0] = false.
 Proof. vm_compute. reflexivity. Qed.
+(* handler pool: the failure goes to the observer at once, the panic to Wait and - possibly only after Wait
+   has returned - to the observer through the service's ErrorHandler *)
+Definition ex_cfh := mkconf 1 true false true false.
+Example pool_handler_final_may_follow_wait :
+  Pool.accepts ex_cfh ex_oc [EStart; EAdd 1; EJobBegin 1; EJobEnd 1; EAdd 2; EJobBegin 2; EJobEnd 2; ECancel; EWaitRet [2] [1]] = true /\
+  Pool.accepts ex_cfh ex_oc [EStart; EAdd 1; EJobBegin 1; EJobEnd 1; EAdd 2; EJobBegin 2; EJobEnd 2; ECancel; EWaitRet [2] [1; 2]] = true /\
+  Pool.accepts ex_cfh ex_oc [EStart; EAdd 1; EJobBegin 1; EJobEnd 1; EAdd 2; EJobBegin 2; EJobEnd 2; ECancel; EWaitRet [] [1; 2]] = false.
+Proof. vm_compute. auto. Qed.
